@@ -51,11 +51,11 @@ def _guard(k, n, lvl, body, x=0, style=0):
 # (cfgd["nc"], rotated over the configurations so that every family meets every class in every run).
 # Names equal to Namespace attributes/methods (uri, body, template, ...) are not used: what wins there is not documented.
 NAME_CLASSES = [
-    {"f": "f", "a": "a", "b": "b", "c": "c"},                                  # ordinary
-    {"f": "_f", "a": "_a", "b": "_b", "c": "_c"},                              # leading underscore
-    {"f": "__f", "a": "__a", "b": "__b", "c": "__c"},                          # double leading underscore
-    {"f": "print", "a": "type", "b": "id", "c": "input"},                      # legal identifiers that are builtins
-    {"f": "fooBar", "a": "attrVal", "b": "mainBlock", "c": "Inner_Block2"},    # mixed case
+    {"f": "f", "a": "a", "b": "b", "c": "c", "probe": "probe"},                                  # ordinary
+    {"f": "_f", "a": "_a", "b": "_b", "c": "_c", "probe": "_probe"},                              # leading underscore
+    {"f": "__f", "a": "__a", "b": "__b", "c": "__c", "probe": "__probe"},                          # double leading underscore
+    {"f": "print", "a": "type", "b": "id", "c": "input", "probe": "vars"},                      # legal identifiers that are builtins
+    {"f": "fooBar", "a": "attrVal", "b": "mainBlock", "c": "Inner_Block2", "probe": "probeIt"},    # mixed case
 ]
 
 
@@ -124,6 +124,8 @@ def template_texts(cfgd, style, uri_of):
             head.append("<%%! %s = %s %%>" % (cn(cfgd, "a"), FALSY[(i - 1) % len(FALSY)]))
         if t["f"]:
             head.append('<%%def name="%s()">%s</%%def>' % (cn(cfgd, "f"), script_text(cfgd, i, t["fs"], style)))
+        # def probe is written in every template: the same Template objects serve whole renders and get_def() requests
+        head.append('<%%def name="%s()">%s</%%def>' % (cn(cfgd, "probe"), script_text(cfgd, i, t["ps"], style)))
         text = "\n".join(head) + ("\n" if head else "") + script_text(cfgd, i, t["body"], style + i) + "\n"
         h = hashlib.sha1(text.encode()).hexdigest()[:16]
         texts[i] = text
@@ -208,12 +210,25 @@ def render_cfg(cfgd, style, backed):
                 context.write("{ERR||0|0}")
             return ""
         buf = FastEncodingBuffer()
-        ctx = Context(buf, g=g, av=av, sw=cfgd["sw"])
+        kw = dict(g=g, av=av, sw=cfgd["sw"])
         signal.signal(signal.SIGALRM, _on_alarm)
         signal.setitimer(signal.ITIMER_REAL, core.tscale(10))
         try:
-            tmpl = (flk if backed else lk).get_template(uris[cfgd["N"]][0])
-            tmpl.render_context(ctx)
+            # the request: on template `top`, whole template or its def probe (Template.get_def), through
+            # render_context / render / render_unicode, on a Template fetched now or one held from an earlier request
+            top = uris[cfgd.get("top", cfgd["N"])][0]
+            held = _W.setdefault("held", {})
+            if style % 2 and (backed, top) in held:
+                tmpl = held[(backed, top)]
+            else:
+                tmpl = held[(backed, top)] = (flk if backed else lk).get_template(top)
+            target = tmpl.get_def(cn(cfgd, "probe")) if cfgd.get("entry", "render") == "def" else tmpl
+            how = (style // 2) % 3
+            if how == 0:
+                target.render_context(Context(buf, **kw))
+            else:
+                r = target.render(**kw) if how == 1 else target.render_unicode(**kw)
+                buf.write(r.decode() if isinstance(r, bytes) else r)
         finally:
             signal.setitimer(signal.ITIMER_REAL, 0)
         toks = TOK.findall(buf.getvalue())
@@ -323,9 +338,19 @@ def random_cfg(rng, n):
             bs.append(op("call", rng.choice(vias), "f"))
         rng.shuffle(bs)
         t["bs"] = [op("emit", "B", "b")] + bs + [op("emit", "/B", "b")]
+        ps = [op("call", v, rng.choice(["f", "b", "c"])) for v in ("self", "local", "parent", "next") if rng.random() < 0.8] \
+            + [op("attr", v, "a") for v in ("self", "local", "parent", "next") if rng.random() < 0.5]
+        rng.shuffle(ps)
+        t["ps"] = [op("emit", "probe")] + ps
         t["cs"] = [op("emit", "B", "c")] + ([op("call", "parent", "c")] if hp and rng.random() < 0.4 else []) + [op("emit", "/B", "c")]
         tpls.append(t)
-    return {"fam": "trace", "N": n, "sw": rng.choice(["p1", "p2", "none"]), "pa": pa, "mode": "random", "tpl": tpls}
+    # the request: on any level of the chain, whole template or get_def("probe")
+    top = n if rng.random() < 0.5 else rng.randrange(1, n + 1)
+    for o in tpls[top - 1]["body"]:        # self.body() written in the requested template itself would recurse for ever
+        if o["op"] == "body" and o["via"] == "self":
+            o["via"] = "next"
+    return {"fam": "trace", "N": n, "top": top, "entry": rng.choice(["render", "render", "def"]),
+            "sw": rng.choice(["p1", "p2", "none"]), "pa": pa, "mode": "random", "tpl": tpls}
 
 
 def tok_rec(s):
@@ -351,8 +376,8 @@ def mc_cfg():
 
 
 def bounds_module(b):
-    return ("---- MODULE MC_InheritBounds ----\nMaxNDef == [dispatch |-> %d, attrs |-> %d, blocks |-> %d, args |-> %d, dyn |-> %d]\n====\n"
-            % (b["dispatch"], b["attrs"], b["blocks"], b["args"], b["dyn"]))
+    return ("---- MODULE MC_InheritBounds ----\nMaxNDef == [dispatch |-> %d, attrs |-> %d, blocks |-> %d, args |-> %d, dyn |-> %d, entry |-> %d]\n====\n"
+            % (b["dispatch"], b["attrs"], b["blocks"], b["args"], b["dyn"], b["entry"]))
 
 
 def first_diff(exp, obs):
@@ -386,19 +411,19 @@ def check(run):
     workers = 8 if os.environ.get("VERIF_FULL_CPU", "1") == "1" else 4
     nproc = min(core.NCPU, 12)
     # ------------------------------------------------------------------ 1. TLC: enumerate, check, print
-    bounds = {"dispatch": 5, "attrs": 5, "blocks": 5, "args": 5, "dyn": 4} if thorough else {"dispatch": 4, "attrs": 4, "blocks": 4, "args": 4, "dyn": 3}
+    bounds = {"dispatch": 5, "attrs": 5, "blocks": 5, "args": 5, "dyn": 4, "entry": 4} if thorough else {"dispatch": 4, "attrs": 4, "blocks": 4, "args": 4, "dyn": 3, "entry": 3}
     # (-coverage slows TLC down 4x on this model: action coverage is taken from a complete run with chains <= 2,
     #  the large run's own vacuity evidence is the printed terminal states, see below)
-    cov = run.tlc("MC_Inherit", mc_cfg(), name="mc-inherit-cov", coverage=True, timeout=250, workers=4,
-                  extra_files={"MC_InheritBounds.tla": bounds_module({"dispatch": 2, "attrs": 2, "blocks": 2, "args": 2, "dyn": 2})})
+    cov = run.tlc("MC_Inherit", mc_cfg(), name="mc-inherit-cov", heap="4g", coverage=True, timeout=250, workers=4,
+                  extra_files={"MC_InheritBounds.tla": bounds_module({"dispatch": 2, "attrs": 2, "blocks": 2, "args": 2, "dyn": 2, "entry": 2})})
     if cov.violated:
         run.spec_violation(cov)
         return {"rule": "TLC found the design model violating %s" % cov.violated, "exhaustive": True}
-    for a in ("PopulateSelf", "InheritFrom", "RunBodyOfBase", "Step", "Finish"):
+    for a in ("PopulateSelf", "InheritFrom", "RunBodyOfBase", "RunDefOfTop", "Step", "Finish"):
         if not cov.coverage.get(a, [0, 0])[1]:
             raise MachineryError("vacuous model checking: action %s never taken (%s)" % (a, cov.coverage))
     run.extra["action_coverage"] = {a: v[1] for a, v in cov.coverage.items() if a[0].isupper()}
-    res = run.tlc("MC_Inherit", mc_cfg(), name="mc-inherit", timeout=1500 if thorough else 250,
+    res = run.tlc("MC_Inherit", mc_cfg(), name="mc-inherit", heap="4g", timeout=1500 if thorough else 250,
                   workers=workers or 8, extra_files={"MC_InheritBounds.tla": bounds_module(bounds)})
     if res.violated:
         run.spec_violation(res)
@@ -451,7 +476,7 @@ def check(run):
         cres = run.tlc("MC_InheritCompile",
                        "CONSTANTS MaxItems = %d MaxPath = 2\nSPECIFICATION CSpec\nINVARIANT DupBlockRejected\nINVARIANT BlockInDefRejected\n"
                        "INVARIANT OthersAccepted\nINVARIANT CEmit\nCHECK_DEADLOCK FALSE\n" % 2,
-                       name="mc-compile", workers=4, timeout=300)
+                       name="mc-compile", heap="4g", workers=4, timeout=300)
         if cres.violated:
             run.spec_violation(cres)
         shapes, sseen = [], set()
@@ -467,7 +492,7 @@ def check(run):
             cres3 = run.tlc("MC_InheritCompile",
                             "CONSTANTS MaxItems = 3 MaxPath = 1\nSPECIFICATION CSpec\nINVARIANT DupBlockRejected\nINVARIANT BlockInDefRejected\n"
                             "INVARIANT OthersAccepted\nINVARIANT CEmit\nCHECK_DEADLOCK FALSE\n",
-                            name="mc-compile3", workers=4, timeout=300)
+                            name="mc-compile3", heap="4g", workers=4, timeout=300)
             if cres3.violated:
                 run.spec_violation(cres3)
             for r in cres3.json_lines():
@@ -510,8 +535,8 @@ def check(run):
         texts, uris = template_texts(dict(r, nc=idx + run.seed), run.seed + idx % 7, lambda h, st: ("t_%s" % h, "t_%s" % h))
         run.violation(sig, "real render disagrees with Inherit.tla at token %d: expected %s, observed %s (%d configurations in this class)"
                       % (d, r["out"][d] if d < len(r["out"]) else "END", obs[d] if d < len(obs) else "END", len(bad_classes[sig])),
-                      {"config": {k: r[k] for k in ("fam", "N", "sw", "pa", "mode")}, "file_backed": backed,
-                       "templates": {uris[i][0]: texts[i] for i in texts}, "render": uris[r["N"]][0],
+                      {"config": {k: r[k] for k in ("fam", "N", "top", "entry", "sw", "pa", "mode")}, "file_backed": backed,
+                       "templates": {uris[i][0]: texts[i] for i in texts}, "render": uris[r["top"]][0] + (" .get_def(probe)" if r["entry"] == "def" else ""),
                        "expected": r["out"], "observed": obs, "first_difference": d})
     # negative controls for the comparer: one expected token corrupted / one dropped
     good = next((b for batch in batches for b in batch if first_diff(recs[b[0]]["out"], b[2]) is None), None)
@@ -526,7 +551,7 @@ def check(run):
         run.negative_control(first_diff(exp[:k] + ["|".join(p)] + exp[k + 1:], good[2]) is not None, "comparer accepted a corrupted level")
         run.negative_control(first_diff(exp[:k] + exp[k + 1:], good[2]) is not None, "comparer accepted a dropped token")
     for r in recs[:: max(1, len(recs) // 3)][:3]:
-        run.sample({"direction": "R", "config": {k: r[k] for k in ("fam", "N", "sw", "pa", "mode")},
+        run.sample({"direction": "R", "config": {k: r[k] for k in ("fam", "N", "top", "entry", "sw", "pa", "mode")},
                     "declares": [{k: t[k] for k in ("f", "a", "b", "c", "inh")} for t in r["tpl"]], "expected_tokens": r["out"][:14]})
 
     # compile-time clause
